@@ -551,7 +551,7 @@ func init() {
 		Name:  "ERR-access",
 		Doc:   "in package errors each constructor stores every parameter into the field of the same meaning and each accessor returns exactly that field (writer's and reader's tables agree)",
 		Props: []string{"C15"},
-		Floor: 9,
+		Floor: 5,
 		Run: func(c *Ctx, s *core.Sink) {
 			m := buildErrModel(c)
 			paramField := map[string]string{"errorType": "errorType", "url": "url", "failure": "failure", "descr": "descr", "err": "cause", "cause": "cause"}
@@ -708,7 +708,7 @@ func init() {
 		Name:  "ERR-callsite",
 		Doc:   "the error result of every call to a handler, or to a function whose error derives from one, aborts the caller: it is returned in the error slot on the branch where it is non-nil, or passed on as the cause of another handler call; never dropped or reduced to a boolean (the setters' `_, _ =` calls are the listed exception)",
 		Props: []string{"C15"},
-		Floor: 60,
+		Floor: 30,
 		Run: func(c *Ctx, s *core.Sink) {
 			m := buildErrModel(c)
 			D := errDeriving(c, m)
@@ -792,7 +792,7 @@ func init() {
 		Name:  "ERR-origin",
 		Doc:   "every value that can reach the error result of BasicParser (directly or through the callees it propagates) is the result of a handler call, hence a typed *ValidationError; every handler call passes a non-empty ErrorType constant declared in errors/codes.go",
 		Props: []string{"C15"},
-		Floor: 60,
+		Floor: 30,
 		Run: func(c *Ctx, s *core.Sink) {
 			m := buildErrModel(c)
 			for _, st := range m.Sites {
